@@ -726,11 +726,16 @@ class Oracle(object):
             if not (cfg["obfuscate"] and "ip" not in call["no_obfuscate"]):
                 continue
             garble = "width-mode-garble" if call.get("width") and not all(width_ok(l) for l in call["lines"]) else None
-            for line in out:
+            aligned = len(out) == len(call["lines"])
+            for n, line in enumerate(out):
+                # excused ONLY by the input: a width=True call and the source line is not one the width-preserving
+                # substitution is made for (when lines were dropped the source line is unknown: any line of the call)
+                src = [call["lines"][n]] if aligned else call["lines"]
+                raw = "width-mode-raw-original" if call.get("width") and not all(width_ok(l) for l in src) else None
                 for t in addr_tokens(line):
                     if t in ipmap and t not in subs and t != "127.0.0.1":
                         fail("call %d%s was emitted with the raw original %r which the mapping pairs with %r: %r" % (
-                            idx, " (width mode)" if call.get("width") else "", t, ipmap[t], line), "ip", issued)
+                            idx, " (width mode)" if call.get("width") else "", t, ipmap[t], line), "ip", issued, raw)
             if len(out) != len(call["lines"]):
                 continue
             if "password" not in call["no_obfuscate"] and any("password" in l for l in call["lines"]):
